@@ -2860,6 +2860,9 @@ class TensorDict(TensorDictBase):
         # We must set these attributes before memmapping because we need the metadata
         # to match the tensordict content.
         if inplace:
+            if self._is_locked:
+                # the leaves are about to be rebound to memory-mapped tensors
+                self._erase_cache_up()
             self._is_memmap = True
             self._is_shared = False  # since they are mutually exclusive
             self._device = torch.device("cpu")
